@@ -518,7 +518,7 @@ class ShapesDriver:
         return {"prop": prop, "key": key, "detail": detail}
 
 
-def tlc_shapes(label, cfg="MC_ConvShapes.cfg", maxe1=2, maxe2=1, maxe3=0, prefixed=0, mask=0, timeout=3000, nenum=20):
+def tlc_shapes(label, cfg="MC_ConvShapes.cfg", maxe1=2, maxe2=1, maxe3=0, prefixed=0, mask=0, timeout=3000, nenum=21):
     return run_tlc("MC_ConvShapes", cfg=cfg, wd=workdir("tlc_shapes_" + label),
                    env={"VERIF_MAXE1": maxe1, "VERIF_MAXE2": maxe2, "VERIF_MAXE3": maxe3,
                         "VERIF_PREFIXED": prefixed, "VERIF_SUBSET": mask, "VERIF_NENUM": nenum}, workers=8, timeout=timeout)
